@@ -92,8 +92,10 @@ class Termination(explore.Scenario):
             if role == "server":
                 rt.stop("not-applicable")
             n.peer.wait_connect(timeout=5.0)
-            if cause in ("close-early", "close-early-silent"):
+            if cause == "close-early":
                 n.settle(0.5)        # the state machine has left Closed (Wait-Conn-Ack): close() is accepted
+            elif cause == "close-early-silent":
+                n.settle(1.25)       # ... and has been polling the pending connection for a few ticks
         elif life == "accepted":
             if role != "server":
                 rt.stop("not-applicable")
